@@ -390,7 +390,10 @@ pub fn exec_conc(c: &mut super::C30, toks: &[&str], n: usize, res: &mut CaseResu
     // the scheduler is dropped before any I/O ran (mode drop) or kept alive until the I/O is done
     let mut keep = Some((fs, sched));
     if drop_mode {
-        keep = None;
+        if !super::c30_scen::drop_with_watchdog(keep.take().unwrap()) {
+            res.failures.push(OracleFailure { what: format!("dropping the scheduler with queued requests did not return within 5 s (cap={cap} buf={buf})"), key: Some("hang".into()), line: n });
+            return "hang".into();
+        }
     } else if mode == "seq" {
         order.sort_by_key(|i| reqs[*i].0);
     }
